@@ -25,6 +25,9 @@ def scenarios(tier):
     sc.append(hc.scen("f_time_T2", BASE[2], T=2, ck=2, tt=3, p=1, fine="gvt,sync", j=4, deadline=dl, budget=B))
     sc.append(hc.scen("c_pred_p2", BASE[0], T=2, ck=2, p=2, j=8, deadline=dl, budget=B))
     sc.append(hc.scen("c_gp1_T2", BASE[0], T=2, ck=2, gp=1, p=1, fine="gvt", j=4, deadline=dl, budget=B))
+    # a long run stopped early from a handler, one rank: prompt return
+    sc.append(hc.scen("stop_long_T2", T(2, [2, 1], [2, 1, 2], P=4, K=0, H=900, S=3), T=2, ck=3, p=0, j=1, deadline=dl, budget=2000000,
+                      extra=["stopprompt=400"]))
     # fewer LPs than requested threads, predicates hold early while the model keeps producing events: the run must end promptly
     sc.append(hc.scen("prompt_L1T2", T(1, [1], [1, 1, 1], P=5, K=3, H=300), T=2, ck=2, p=1, j=2, deadline=dl, budget=B, extra=["prompt=150"]))
     sc.append(hc.scen("prompt_L2T3", T(2, [1, 2], [2, 1, 2], P=5, K=3, H=200), T=3, ck=2, p=1, j=2, deadline=dl, budget=B, extra=["prompt=150"]))
@@ -58,6 +61,11 @@ def scenarios_ranks(tier):
     sc = [hc.scen("r2x1_pred", T(2, [2, 1], [2, 1, 2], P=0, K=3, H=6), T=1, ck=2, p=1, d=1, j=4, deadline=dl, budget=B),
           hc.scen("r2x2_pred", T(4, [2, 1, 2, 1], [2, 1, 2], P=0, K=2, H=3), T=2, ck=2, p=1, d=0, j=4, deadline=dl, budget=B),
           hc.scen("r2x1_stop", T(2, [2, 1], [2, 1, 2], P=4, K=0, H=8, S=3), T=1, ck=2, p=1, d=1, j=4, deadline=dl, budget=B)]
+    # a long run stopped early: the stop has to end every rank promptly, not at the exhaustion of the events (finite models hide a
+    # stop that never takes effect); default schedule plus one delivery deviation
+    LONG = 2000000
+    sc += [hc.scen("r2x1_stop_long", T(2, [2, 1], [2, 1, 2], P=4, K=0, H=900, S=3), T=1, ck=3, p=0, d=1, j=4, deadline=dl, budget=LONG,
+                   extra=["stopprompt=400", "--max-exec", "60"])]
     if tier != "quick":
         sc += [hc.scen("r2x2_pred_d1", T(4, [2, 1, 2, 1], [2, 1, 2], P=0, K=2, H=3), T=2, ck=2, p=1, d=1, j=16, deadline=2400, budget=B),
                hc.scen("r2x1_pred_d2", T(2, [2, 1], [2, 1, 2], P=0, K=3, H=6), T=1, ck=2, p=1, d=2, j=8, deadline=dl, budget=B),
